@@ -60,7 +60,7 @@ pub fn inputs() -> Vec<InputClass>
 	]
 }
 
-pub const PATH_FORMS: [&str; 4] = ["relative", "./relative", "absolute", "in a sub-directory"];
+pub const PATH_FORMS: [&str; 5] = ["relative", "./relative", "absolute", "in a sub-directory", "through the parent directory"];
 pub const SUBCOMMANDS: [&str; 4] = ["(default)", "build", "run", "emit"];
 pub const VERBOSITY: [&str; 3] = ["", "--silent", "--verbose"];
 
@@ -153,10 +153,10 @@ pub fn drive(d: &mut Driver)
 	let ins = inputs();
 	d.bound("subcommands", json!(SUBCOMMANDS));
 	d.bound("input classes", json!(ins.iter().map(|i| i.name).collect::<Vec<_>>()));
-	d.bound("path forms", json!(if quick { vec![PATH_FORMS[0], PATH_FORMS[2], PATH_FORMS[3]] } else { PATH_FORMS.to_vec() }));
+	d.bound("path forms", json!(if quick { vec![PATH_FORMS[0], PATH_FORMS[2], PATH_FORMS[3], PATH_FORMS[4]] } else { PATH_FORMS.to_vec() }));
 	d.bound("options", json!({"verbosity": VERBOSITY, "--color": ["never", "always"], "--arrows": ["ascii", "unicode"], "--out-dir": ["absent", "D"], "--wasm": ["off", "on (build, emit)"]}));
 	let mut cases: Vec<Case> = Vec::new();
-	let forms: Vec<usize> = if quick { vec![0, 2, 3] } else { vec![0, 1, 2, 3] };
+	let forms: Vec<usize> = if quick { vec![0, 2, 3, 4] } else { vec![0, 1, 2, 3, 4] };
 	for sub in 0..4
 	{
 		for input in 0..ins.len()
@@ -375,7 +375,12 @@ fn judge(c: &Case, w: &mut WorkerCtx)
 	let mut lib_files: Vec<(String, String)> = Vec::new();
 	for (name, text) in &input.files
 	{
-		let rel = if c.path_form == 3 { format!("src/{name}") } else { name.to_string() };
+		let rel = match c.path_form
+		{
+			3 => format!("src/{name}"),
+			4 => format!("shared/{name}"),
+			_ => name.to_string(),
+		};
 		let on_disk = work_dir.join(&rel);
 		std::fs::create_dir_all(on_disk.parent().unwrap()).unwrap();
 		let is_missing = input.missing && *name == "nowhere.pn";
@@ -387,6 +392,7 @@ fn judge(c: &Case, w: &mut WorkerCtx)
 		{
 			1 => format!("./{rel}"),
 			2 => on_disk.to_string_lossy().to_string(),
+			4 => format!("../{rel}"),
 			_ => rel.clone(),
 		};
 		args_paths.push(given.clone());
@@ -404,7 +410,10 @@ fn judge(c: &Case, w: &mut WorkerCtx)
 	let stub = |n: &str| stub_dir.join(n).to_string_lossy().to_string();
 	// command line
 	let mut cmd = std::process::Command::new(cli());
-	cmd.current_dir(&work_dir);
+	// "through the parent directory": the tool runs in work/app and the modules are ../shared/<name>
+	let cwd = if c.path_form == 4 { work_dir.join("app") } else { work_dir.clone() };
+	std::fs::create_dir_all(&cwd).unwrap();
+	cmd.current_dir(&cwd);
 	cmd.env_clear();
 	let path = if c.real_backend { "/usr/bin:/bin".to_string() } else { format!("{}:/usr/bin:/bin", stub_dir.to_string_lossy()) };
 	cmd.env("PATH", &path);
@@ -421,7 +430,7 @@ fn judge(c: &Case, w: &mut WorkerCtx)
 	}
 	argv.push(format!("--color={}", if c.colour_always { "always" } else { "never" }));
 	argv.push(format!("--arrows={}", if c.arrows_unicode { "unicode" } else { "ascii" }));
-	let out_dir_given = if c.path_form == 2 { work_dir.join("D").to_string_lossy().to_string() } else { "D".to_string() };
+	let out_dir_given = if c.path_form == 2 { cwd.join("D").to_string_lossy().to_string() } else { "D".to_string() };
 	if c.out_dir
 	{
 		argv.push("--out-dir".to_string());
@@ -635,7 +644,7 @@ fn judge(c: &Case, w: &mut WorkerCtx)
 		}
 	}
 	// (4) files
-	let d_dir = work_dir.join("D");
+	let d_dir = cwd.join("D");
 	let mut expected_files: Vec<PathBuf> = Vec::new();
 	if let Some(Verdict::Ok { irs, .. }) = &lib
 	{
@@ -643,10 +652,10 @@ fn judge(c: &Case, w: &mut WorkerCtx)
 		{
 			for (i, (given, _)) in lib_files.iter().enumerate()
 			{
-				// the module's path below D: for relative paths D/<path>.pn.ll; for absolute paths any
-				// place below D with the module's file name
+				// the module's path below D: for relative paths D/<path>.pn.ll; for absolute paths and
+				// paths through a parent directory any place below D with the module's file name
 				let file_name = format!("{}.ll", Path::new(given).file_name().unwrap().to_string_lossy());
-				let p = if c.path_form == 2
+				let p = if c.path_form == 2 || c.path_form == 4
 				{
 					run.new_files.iter().chain(after.iter()).find(|f| f.starts_with(&d_dir) && f.file_name().map(|n| n.to_string_lossy() == file_name).unwrap_or(false)).cloned().unwrap_or(d_dir.join(&file_name))
 				}
